@@ -268,6 +268,11 @@ fn present_ag(vp: &str, ai: u16, off: u32, size: u32) -> Value {
 fn run_agroup(p: &Value, run: &mut Run) {
     let (n, srcs) = (u(p, "n"), u(p, "srcs"));
     let (lay, vp, ord, path) = (s(p, "lay"), s(p, "vp"), s(p, "ord"), s(p, "path"));
+    // dup = d > 0: every key of rank i with i mod d = 0 is handed in a second time with another value, by a
+    // later add_entry (builder) / in the next source index (merged, when there is one): the first copy wins
+    let dup = p["dup"].as_u64().unwrap_or(0);
+    let is_dup = |i: u64| dup > 0 && i % dup == 0;
+    let loser = |off: u32, sz: u32| (off ^ 0x0101, sz ^ 0x0101);
     check_embedding(&lay, 16, n);
     let mut bytes = Vec::new();
     let memg: ArchiveGroup = if path == "builder" {
@@ -275,6 +280,10 @@ fn run_agroup(p: &Value, run: &mut Run) {
         for i in order(&ord, n) {
             let (off, sz) = ag_value(&vp, 2 * i);
             b.add_entry(ArchiveGroupEntry::new(embed(&lay, 16, n, 2 * i), ag_ai(&vp, srcs, 2 * i), off, sz));
+            if is_dup(i) {
+                let (o2, s2) = loser(off, sz);
+                b.add_entry(ArchiveGroupEntry::new(embed(&lay, 16, n, 2 * i), ag_ai(&vp, srcs, 2 * i + 2), o2, s2));
+            }
         }
         stage!(run, "build", b.build(Cursor::new(&mut bytes)))
     } else {
@@ -286,6 +295,11 @@ fn run_agroup(p: &Value, run: &mut Run) {
                 if i % srcs == j {
                     let (off, sz) = ag_value(&vp, 2 * i);
                     b.add_entry(embed(&lay, 16, n, 2 * i), sz, off as u64);
+                } else if is_dup(i) && i % srcs + 1 == j {
+                    // the losing copy: same key in the next source, whose own later keys must still be merged
+                    let (off, sz) = ag_value(&vp, 2 * i);
+                    let (o2, s2) = loser(off, sz);
+                    b.add_entry(embed(&lay, 16, n, 2 * i), s2, o2 as u64);
                 }
             }
             let mut sink = Vec::new();
@@ -474,6 +488,14 @@ fn path_of(style: &str, a: u64) -> String {
         _ => format!("World/Maps/Azeroth/file{a:05}.adt"),
     }
 }
+/// locale mask of the block file i goes to (1 block: enUS; 2: enUS, deDE; 3: enUS, deDE, 0 = no locale bit)
+fn block_locale(blocks: u64, i: u64) -> u32 {
+    match blocks {
+        1 => LocaleFlags::ENUS,
+        2 => [LocaleFlags::ENUS, LocaleFlags::DEDE][(i % 2) as usize],
+        _ => [LocaleFlags::ENUS, LocaleFlags::DEDE, 0][(i % 3) as usize],
+    }
+}
 fn root_version(v: u64) -> RootVersion {
     RootVersion::from_u32(v as u32).expect("root version")
 }
@@ -488,7 +510,7 @@ fn build_root(p: &Value, n: u64, lay: &str, ord: &str) -> RootBuilder {
     let mut b = RootBuilder::new(root_version(u(p, "ver")));
     for i in order(ord, n) {
         let a = 2 * i;
-        let locale = if blocks == 2 && i % 2 == 1 { LocaleFlags::DEDE } else { LocaleFlags::ENUS };
+        let locale = block_locale(blocks, i);
         let nm = is_named(named, i);
         let content = if nm { ContentFlags::INSTALL } else { ContentFlags::INSTALL | ContentFlags::NO_NAME_HASH };
         let path = path_of(&style, a);
@@ -531,7 +553,7 @@ fn run_root(p: &Value, run: &mut Run) {
     for a in probes(p, "probes") {
         let fd = FileDataId::new(fdid_of(&lay, n, a));
         let path = path_of(&style, a);
-        let own = if blocks == 2 && (a / 2) % 2 == 1 { LocaleFlags::DEDE } else { LocaleFlags::ENUS };
+        let own = block_locale(blocks, a / 2);
         let other = if own == LocaleFlags::ENUS { LocaleFlags::DEDE } else { LocaleFlags::ENUS };
         let mut r = Map::new();
         fl(&mut r, "id", || root.resolve_by_id(fd, all, any).iter().map(&hx).collect());
